@@ -250,9 +250,13 @@ static int recv_events(m_ctx_t *c, int timeout) {
                 msg = &evt->evt;
                 fetch_ms(&msg->ts, NULL);
                 M_INFO("'%s' received %u type evt.\n", mod->name, msg->type);
+                /* Only errors happened while consuming this event matter: forget errno left behind by user callbacks */
+                errno = 0;
                 p = p->process(p, c, i, evt);
+                err = errno; // Store any errno that happened while consuming events
+            } else {
+                err = ENOMEM;
             }
-            err = errno; // Store any errno that happened while consuming events
             bool msg_consumed = false;
 
             if (err == 0) {
